@@ -65,6 +65,41 @@ fn parse_args() -> Args {
     a
 }
 
+static CASE_START_CPU_MS: std::sync::atomic::AtomicU64 = std::sync::atomic::AtomicU64::new(0);
+static CASE_INDEX: std::sync::atomic::AtomicU64 = std::sync::atomic::AtomicU64::new(0);
+
+fn cpu_ms() -> u64 {
+    let mut ts = libc::timespec { tv_sec: 0, tv_nsec: 0 };
+    unsafe {
+        libc::clock_gettime(libc::CLOCK_PROCESS_CPUTIME_ID, &mut ts);
+    }
+    ts.tv_sec as u64 * 1000 + ts.tv_nsec as u64 / 1_000_000
+}
+
+/// A case that burns more than the CPU budget (process CPU time, not wall clock, so machine load does not matter) is
+/// reported through <out>.hang and exit code 97; the driver decides per property whether that is a violation (an
+/// instruction limit was set, so the interpreter must have stopped) or merely inconclusive.
+#[cfg(not(miri))]
+fn start_cpu_watchdog(out: String) {
+    let limit_ms: u64 = std::env::var("XV_CASE_CPU_LIMIT_S").ok().and_then(|v| v.parse().ok()).unwrap_or(40) * 1000;
+    std::thread::spawn(move || loop {
+        std::thread::sleep(std::time::Duration::from_millis(400));
+        let start = CASE_START_CPU_MS.load(std::sync::atomic::Ordering::Relaxed);
+        if start == 0 {
+            continue;
+        }
+        let used = cpu_ms().saturating_sub(start);
+        if used > limit_ms {
+            let idx = CASE_INDEX.load(std::sync::atomic::Ordering::Relaxed);
+            if !out.is_empty() {
+                let _ = std::fs::write(format!("{}.hang", out), format!("{} {}", idx, used));
+            }
+            eprintln!("xv: case {} used {} ms of CPU (budget {} ms): treated as a hang", idx, used, limit_ms);
+            std::process::exit(97);
+        }
+    });
+}
+
 fn main() {
     let args = parse_args();
     if std::env::var("RUST_BACKTRACE").is_err() {
@@ -73,6 +108,8 @@ fn main() {
     install_panic_hook();
     #[cfg(not(miri))]
     set_mem_limit(3 << 30);
+    #[cfg(not(miri))]
+    start_cpu_watchdog(args.out.clone());
     let mut obs = Obs::default();
     let mut inflight = if args.out.is_empty() {
         None
@@ -96,6 +133,8 @@ fn main() {
             let _ = f.write_at(format!("{:<20}", idx).as_bytes(), 0);
         }
         obs.cases += 1;
+        CASE_INDEX.store(idx, std::sync::atomic::Ordering::Relaxed);
+        CASE_START_CPU_MS.store(cpu_ms().max(1), std::sync::atomic::Ordering::Relaxed);
         let before = obs.violations.len();
         let r = catch(|| mon.run_case(idx, &mut obs));
         if let Err((msg, loc)) = r {
